@@ -39,9 +39,30 @@ CLAIMS = {
     "C17": ("kv value join (LastWriteWins / firstTombstoneWins / Tombstoned) verified against the documented rule for all inputs; "
             "join laws as SMT lemmas; update/Get/Diff glue contracts",
             "TraceHistory and the gob/json root codecs are not decided; mast.Mast Get/Insert assumed (finite-map contract)", "DESIGN §6 C17"),
+    "C06": ("scan contracts: xBestIndex (both layers) proposes only windows the scan implements and reports ORDER BY as consumed only for a single key term; xFilter positions the cursor on the first key of the window for every operator/direction/bound combination; "
+            "xNext steps in key order, skips kv tombstones and deleted rows, stops exactly at the window's end; Column returns the stored value of the current row; five genuine scan defects found, replayed at SQL level and fixed",
+            "mast cursor contract assumed (immutable snapshot, strictly increasing keys); key order treated as an opaque total preorder ordU consistent with Key.Order; SQLite re-checks constraints (Omit unset)", "DESIGN §6 C06"),
+    "C07": ("key order: typeIndex/orderType/order/Key.Order verified against SQLite's documented class order and numeric/text/blob comparison (total preorder, antisymmetric up to equal contents) for all key pairs; NewKey/Value round trip; "
+            "statements locate rows by that order",
+            "INTEGER vs REAL comparison uses an uninterpreted monotone int->float conversion: exactness beyond 2^53 and mast Layer congruence across classes are not decided (no bit-vector mode built)", "DESIGN §6 C07"),
+    "C11": ("a historic open of named versions is a function of exactly those versions: kv.Open issues no LIST, merges strictly (any unreadable named version is an error, never a skip) exactly the named list, and every named version ends up merged; "
+            "mergeRoots loop invariant carries this for every order of the random shuffle; a genuine defect (Clone failure skipped in strict mode) found, replayed and fixed; commit publishes the version object only after a successful flush",
+            "naming of versions by content hash and immutability of stored objects rest on the assumed mast/MakeRoot contract; s3db_version / Roots / OpenKV glue not under contract", "DESIGN §6 C11"),
+    "C12": ("the two ends of a diff: kv.Open on a named version list (including the empty list = empty version) reads exactly those versions strictly, with no LIST and no write",
+            "ChangesCursor / DiffCursor / s3db_changes glue are not yet under contract: the row-level statement of C12 is not decided", "DESIGN §6 C12"),
+    "C14": ("error propagation contracts: every function under contract returns an error or its full postcondition on every path (scan stepping, statements, commit, open/merge, listing, loading), no nil dereference, index or type-assertion panic for any input; "
+            "failed commit retires nothing; strict opens never skip",
+            "hangs, wall-clock bounds and dependency internals are outside contracts; ChangesCursor/Vacuum/OpenKV not yet under contract", "DESIGN §6 C14"),
+    "C09": ("vacuum: only rows that are already invisible (deleted) are turned into tombstones; history is deleted only after the purged tree was committed; a version is offered for deletion only if ALL its successors were created no later than the cutoff; "
+            "only nodes the diff reported as removed are offered and no node of the handle's own tree is; nodes are deleted before the versions that reference them; genuine defect found (vacuum deleted shared nodes of the current version: table read empty), replayed and fixed",
+            "that mast DiffIter/DiffLinks visit every entry/node is an assumed clause (higher-order dependency); 'rows unchanged' as one functional postcondition of Vacuum is not stated; crash points are covered as ordering obligations only", "DESIGN §6 C09, §12"),
+    "C10": ("cutoff boundaries: row side strictly before the cutoff (call-site assertion in Vacuum), purge test in the RemoveTombstones callback (stamp != 0 and strictly before the cutoff, everything else untouched), version side every successor not after the cutoff",
+            "completeness of the version-side selection and idempotence of a repeated vacuum are not stated; iterator coverage assumed", "DESIGN §6 C10, §12"),
 }
 
 NOT_APPLICABLE = {
+    "C03": "quantifies over request-level interleavings of several clients (schedules, histories): a whole-history property that per-function contracts on sequential code cannot express; the ordering facts contracts can carry are claimed under C04/C11/C13 (DESIGN §7, §12.1)",
+    "C18": "not reached in this round: the reachable part would be slice-bounds obligations in kv/crypto.go over assumed nacl/secretbox contracts (confidentiality and authentication are properties of the assumed primitives); no other technique substituted (DESIGN §12.1)",
     "C19": "quantifies over thread schedules under the race detector; contracts on sequential code have no model of threads (DESIGN §7)",
 }
 
